@@ -591,11 +591,11 @@ Fixpoint jm_name_token (strict : bool) (l : list N) (acc : list N) : option (lis
     if jm_is_delimiter c then None
     else if c =? 35 then
       match t with
-      | [] => None                                      (* end of input inside the escape: outside the model *)
+      | [] => if strict then None else Some (rev' (0 :: acc))      (* presentEOF pushes '\f': a stray '#' *)
       | h1 :: t1 =>
         if jm_is_hex_digit h1 then
           match t1 with
-          | [] => None
+          | [] => if strict then None else Some (rev' (h1 :: 0 :: acc))
           | h2 :: t2 =>
             if jm_is_hex_digit h2 then
               let code := jm_hex_decode_char h1 * 16 + jm_hex_decode_char h2 in
